@@ -90,6 +90,11 @@ class Result:
         self.inconclusive = []
         self.kinds = {}
         self._known = load_known(prop)
+        # replay directories belong to one run
+        if os.path.isdir(REPLAY):
+            for d in os.listdir(REPLAY):
+                if d.startswith(prop + "-"):
+                    shutil.rmtree(os.path.join(REPLAY, d), ignore_errors=True)
 
     def count(self, kind, n=1):
         self.kinds[kind] = self.kinds.get(kind, 0) + n
